@@ -231,6 +231,25 @@ def mutation_sites(fn):
                 yield n, n.target, "+= list"
 
 
+def _site_shape(node, fn) -> str:
+    """Text of a mutation site with the function's local variables (not its parameters) written as `_`:
+    the key under which one site can be exempted, stable under renaming of locals."""
+    params = set(func_params(fn))
+    c = ast.parse(unparse(node)).body[0]
+    for x in ast.walk(c):
+        if isinstance(x, ast.Name) and x.id not in params:
+            x.id = "_"
+    return unparse(c)
+
+
+def _adoption_in_constructor(node, fn) -> bool:
+    """`<child>.parent = self` inside __init__: the node under construction adopts the children it was built
+    from.  Any other store to .parent re-attributes an existing node to another scope and is analysed like
+    every other in-place modification."""
+    st = parent(node)
+    return fn.name == "__init__" and isinstance(st, ast.Assign) and isinstance(st.value, ast.Name) and st.value.id == "self"
+
+
 def rule_mutate_only_fresh(ctx, rep: Report, rid: str, package: str, exempt: Dict[str, str],
                            allow_parent_links: bool = True, min_sites: int = 1):
     fr = Fresh(ctx)
@@ -246,9 +265,9 @@ def rule_mutate_only_fresh(ctx, rep: Report, rid: str, package: str, exempt: Dic
             key = f"mutation:{fid.qual}:{unparse(node)[:60]}"
             loc = f"{mi.rel}:{node.lineno}"
             # through a call: x.f().append(..)  -> the call result is the root
-            if allow_parent_links and how == "attribute store .parent":
+            if allow_parent_links and how == "attribute store .parent" and _adoption_in_constructor(node, fn):
                 n += 1
-                rep.add(rid, key, True, "back-link to the owner (adopting a child node)", loc, nontrivial=False)
+                rep.add(rid, key, True, "back-link to the owner (a constructor adopting the children it was given)", loc, nontrivial=False)
                 continue
             if isinstance(root, ast.Name) and root.id == "self":
                 if isinstance(base, ast.Name):
@@ -271,9 +290,9 @@ def rule_mutate_only_fresh(ctx, rep: Report, rid: str, package: str, exempt: Dic
                         f"value: {bad[:1] or 'not bound in this constructor'}", loc)
                 continue
             n += 1
-            if fid.qual in exempt or f"{fid.qual}:{unparse(root)[:30]}" in exempt:
-                rep.add(rid, key, True, "exempt: " + exempt.get(fid.qual, exempt.get(f"{fid.qual}:{unparse(root)[:30]}", "")),
-                        loc, nontrivial=False)
+            ekey = f"{fid.qual}:{_site_shape(node, fn)}"
+            if ekey in exempt:
+                rep.add(rid, key, True, "exempt (this one site): " + exempt[ekey], loc, nontrivial=False)
                 continue
             ok, why = fr.fresh(root, fn, mi, ci)
             if not ok and isinstance(root, ast.Name) and root.id in func_params(fn):
@@ -300,7 +319,7 @@ def rule_mutate_only_fresh(ctx, rep: Report, rid: str, package: str, exempt: Dic
                 n += 1
                 key = f"mutation:{fid.qual}.{g.name}:{unparse(node)[:60]}"
                 loc = f"{mi.rel}:{node.lineno}"
-                if allow_parent_links and how == "attribute store .parent":
+                if allow_parent_links and how == "attribute store .parent" and _adoption_in_constructor(node, fn):
                     rep.add(rid, key, True, "back-link to the owner", loc, nontrivial=False)
                     continue
                 owner = _owner_param(g, root, gparams)
